@@ -728,6 +728,14 @@ Pointset_Powerset<PSET>
     if (enlarged_i.simplify_using_context_assign(context_i)) {
       nonempty_intersection = true;
     }
+    // The simplification is meet-preserving, but it is not necessarily
+    // an enlargement of `dest' (e.g., when `dest' and the context only
+    // share a lower dimensional face); since the results obtained for
+    // the different elements of the context are intersected, each of them
+    // has to contain `dest'.
+    if (!enlarged_i.contains(dest)) {
+      enlarged_i = dest;
+    }
     // TODO: merge the sorted constraints of `enlarged' and `enlarged_i'?
     enlarged.intersection_assign(enlarged_i);
   }
